@@ -812,6 +812,11 @@ def s_fresh_serial(P, E):
                 for o in [rv[k] for k in ("a", "b", "op") if isinstance(rv.get(k), dict)]:
                     leaves |= b.value_sources(b.operand_prov(o))
                 foreign = [t for t in leaves if t[0] != "const" and not (t[0] == "param" and t[1] == 1 and t[2][:1] == ("serial",))]
+                if not foreign and not b.advances(rv):
+                    r.violate((b.nid, "serial does not move"),
+                              "the value stored back into the serial counter is not the old one plus a non-zero constant (steps found: %s): "
+                              "consecutive upstreams get the same key, the later one overwrites the earlier one's entry and `last one out` "
+                              "fires early" % b.arith_steps(rv), body=b, line=s_.get("line"))
                 if foreign:
                     r.violate((b.nid, "serial not advanced from itself"),
                               "the new value of the serial counter derives from %s, not only from the counter: a key can "
